@@ -1,9 +1,12 @@
+#![feature(allocator_api)]
+#![allow(unused, non_snake_case, deprecated)]
 // Unit "core": U1 (stack/util helpers), U2 (can_emit guards), U3 (process_stack_ops effects).
 // Function bodies are pasted from /repo/src by lib/extract.py on every run.
 use vstd::prelude::*;
 use std::collections::{HashMap, HashSet};
 
 verus! {
+global size_of usize == 8;
 //@item src/opcodes.rs enum OpcodeKind
 //@item src/protocol.rs enum Version
 } // verus!
@@ -67,6 +70,34 @@ impl Stack {
 //@endfn
 }
 
+pub open spec fn le_u32(b: Seq<u8>) -> int {
+    vstd::bytes::spec_u32_from_le_bytes(seq![b[0], b[1], b[2], b[3]]) as int
+}
+
+/// what the emitters guarantee about the argument bytes handed to process_stack_ops (U6, Kani side):
+/// the bytes are complete for the opcode's format and, for memo opcodes, denote the index `a.idx`
+pub open spec fn arg_link(op: OpcodeKind, arg_bytes: Option<&[u8]>, a: RefArg) -> bool {
+    let some = arg_bytes.is_some();
+    let b = arg_bytes.unwrap()@;
+    match op {
+        OpcodeKind::Put | OpcodeKind::Get =>
+            some && vf_parse_index(b) == Some(a.idx as usize) && 0 <= a.idx <= usize::MAX,
+        OpcodeKind::BinPut | OpcodeKind::BinGet =>
+            some && b.len() >= 1 && b[0] as int == a.idx,
+        OpcodeKind::LongBinPut | OpcodeKind::LongBinGet =>
+            some && b.len() >= 4 && le_u32(b) == a.idx,
+        OpcodeKind::BinInt => some && b.len() >= 4,
+        OpcodeKind::BinInt1 => some && b.len() >= 1,
+        OpcodeKind::BinInt2 => some && b.len() >= 2,
+        OpcodeKind::BinFloat => some && b.len() >= 8,
+        OpcodeKind::Long1 => some && b.len() >= 1 && b.len() > b[0] as int,
+        OpcodeKind::Long4 => some && b.len() >= 4 && b.len() >= 4 + le_u32(b),
+        OpcodeKind::Global | OpcodeKind::Inst => some && vf_line_parts(b) >= 2,
+        OpcodeKind::PersID => some,
+        _ => true,
+    }
+}
+
 impl Generator {
     pub open spec fn view(&self) -> Seq<Kind> { self.state.stack.view() }
 
@@ -98,6 +129,7 @@ impl Generator {
         final(self).view() == old(self).view().push(kind_of(value)),
         final(self).state.memo == old(self).state.memo,
         final(self).output == old(self).output,
+        final(self).same_config(old(self)),
 //@endfn
 
 //@fn src/generator/utils.rs Generator::pop
@@ -109,6 +141,26 @@ impl Generator {
             && final(self).view() == old(self).view().drop_last(),
         final(self).state.memo == old(self).state.memo,
         final(self).output == old(self).output,
+        final(self).same_config(old(self)),
+//@endfn
+
+//@fn src/generator/utils.rs Generator::get
+//@ret r
+//@contract
+    ensures
+        !self.state.memo@.dom().contains(index) ==> r.is_none(),
+        self.state.memo@.dom().contains(index) ==> r.is_some() && r.unwrap().kind() == self.state.memo@[index].kind(),
+//@endfn
+
+//@fn src/generator/utils.rs Generator::put
+//@contract
+    ensures
+        final(self).state.memo@.dom() == old(self).state.memo@.dom().insert(index),
+        final(self).state.memo@[index].kind() == kind_of(value),
+        forall|k: usize| k != index && old(self).state.memo@.dom().contains(k) ==> final(self).state.memo@[k] == old(self).state.memo@[k],
+        final(self).state.stack == old(self).state.stack,
+        final(self).output == old(self).output,
+        final(self).same_config(old(self)),
 //@endfn
 
 //@fn src/generator/utils.rs Generator::peek_at
@@ -267,6 +319,14 @@ impl Generator {
         &&& (op == OpcodeKind::Ext1 || op == OpcodeKind::Ext2 || op == OpcodeKind::Ext4) ==> self.allow_ext_opcodes
         &&& (op == OpcodeKind::NextBuffer || op == OpcodeKind::ReadOnlyBuffer) ==> self.allow_buffer_opcodes
         &&& op == OpcodeKind::Proto ==> !self.state.proto_emitted
+        &&& self.sim_pre(op)
+    }
+
+    /// simulation-side facts a guard establishes that process_stack_ops relies on (STACK_GLOBAL only
+    /// pushes its result when it sees two String cells)
+    pub open spec fn sim_pre(&self, op: OpcodeKind) -> bool {
+        op == OpcodeKind::StackGlobal && !self.unsafe_mutations ==>
+            self.view().len() >= 2 && at(self.view(), 0) == Kind::String && at(self.view(), 1) == Kind::String
     }
 
 //@arms src/generator/validation.rs Generator::can_emit opcode
@@ -289,6 +349,141 @@ impl Generator {
         assert(self.view().len() == r.stack.len());
         assert(items_above_mark(r.stack) == self.view().len() - 1 - top_mark(self.view()));
 
+//@endfn
+
+    pub open spec fn same_config(&self, o: &Generator) -> bool {
+        &&& self.state.version == o.state.version
+        &&& self.state.proto_emitted == o.state.proto_emitted
+        &&& self.seed == o.seed && self.bufsize == o.bufsize
+        &&& self.min_opcodes == o.min_opcodes && self.max_opcodes == o.max_opcodes
+        &&& self.mutators == o.mutators && self.mutation_rate == o.mutation_rate
+        &&& self.unsafe_mutations == o.unsafe_mutations
+        &&& self.allow_ext_opcodes == o.allow_ext_opcodes
+        &&& self.allow_buffer_opcodes == o.allow_buffer_opcodes
+    }
+
+    /// loop invariant of the `while let Some(item) = self.pop()` collapse loops: a prefix of the
+    /// entry stack that still contains the topmost MARK
+    pub open spec fn popping(&self, o: &Generator) -> bool {
+        &&& self.view().len() <= o.view().len()
+        &&& self.view() =~= o.view().subrange(0, self.view().len() as int)
+        &&& 0 <= top_mark(o.view()) < self.view().len()
+        &&& self.state.memo == o.state.memo && self.output == o.output && self.same_config(o)
+    }
+    pub open spec fn popped_to_mark(&self, o: &Generator) -> bool {
+        &&& top_mark(o.view()) >= 0
+        &&& self.view() =~= o.view().subrange(0, top_mark(o.view()))
+        &&& self.state.memo == o.state.memo && self.output == o.output && self.same_config(o)
+    }
+
+//@define POP_TO_MARK_LOOP
+//@loop 1
+                    invariant_except_break self.popping(old(self)),
+                    ensures self.popped_to_mark(old(self)),
+                    decreases self.view().len(),
+//@after 1 while let Some(item) = self.pop()
+                    proof { lemma_top_mark_props(old(self).view()); }
+//@enddef
+
+//@define PAIR_LOOP
+//@loop 1
+                    invariant_except_break
+                        self.popping(old(self)),
+                        (self.view().len() - 1 - top_mark(old(self).view())) % 2 == 0,
+                    ensures self.popped_to_mark(old(self)),
+                    decreases self.view().len(),
+//@after 1 while let Some(value) = self.pop()
+                    proof { lemma_top_mark_props(old(self).view()); }
+//@enddef
+
+//@arms src/generator/stack_ops.rs Generator::process_stack_ops opcode
+//@ghost Ghost(r): Ghost<RefState>, Ghost(a): Ghost<RefArg>
+//@prelude
+        proof { lemma_top_mark_compat(self.view(), r.stack); lemma_top_mark_props(r.stack); }
+//@contract
+    requires
+        old(self).rel(r),
+        !old(self).unsafe_mutations,
+        opcode != OpcodeKind::Stop,
+        ref_pre(opcode, a, r),
+        old(self).sim_pre(opcode),
+        arg_link(opcode, arg_bytes, a),
+    ensures
+        final(self).rel(ref_step(opcode, a, r)),
+        final(self).output == old(self).output,
+        final(self).same_config(old(self)),
+//@arm Dup
+//@after 1 self.state.stack.inner.push(top.clone());
+                        assert(self.view() =~= old(self).view().push(old(self).view().last()));
+//@arm PopMark
+//@use POP_TO_MARK_LOOP
+//@arm Appends
+//@use POP_TO_MARK_LOOP
+//@arm List
+//@use POP_TO_MARK_LOOP
+//@arm Tuple
+//@use POP_TO_MARK_LOOP
+//@arm AddItems
+//@use POP_TO_MARK_LOOP
+//@arm FrozenSet
+//@use POP_TO_MARK_LOOP
+//@arm Obj
+//@loop 1
+                    invariant_except_break
+                        self.popping(old(self)),
+                        accumulated@.len() == old(self).view().len() - self.view().len(),
+                    ensures
+                        self.popped_to_mark(old(self)),
+                        accumulated@.len() == old(self).view().len() - 1 - top_mark(old(self).view()),
+                    decreases self.view().len(),
+//@after 1 while let Some(item) = self.pop()
+                    proof { lemma_top_mark_props(old(self).view()); }
+//@arm Dict
+//@use PAIR_LOOP
+//@arm SetItems
+//@use PAIR_LOOP
+//@arm Int
+//@subst if let Ok(value_str) = std::str::from_utf8(arg_bytes) { ... } else { 0 } => vf_parse_i64(arg_bytes)
+//@arm Long
+//@subst if let Ok(value_str) = std::str::from_utf8(arg_bytes) { ... } else { 0 } => vf_parse_i64(arg_bytes)
+//@arm Float
+//@subst if let Ok(value_str) = std::str::from_utf8(arg_bytes) { ... } else { 0.0 } => vf_parse_f64(arg_bytes)
+//@arm BinInt
+//@subst i32::from_le_bytes( => vf_i32_from_le_bytes(
+//@arm BinInt2
+//@subst u16::from_le_bytes( => vf_u16_from_le_bytes(
+//@arm BinFloat
+//@subst f64::from_be_bytes( => vf_f64_from_be_bytes(
+//@arm Long1
+//@subst for (i, &b) in ... { ... } => value = vf_le_bytes_to_i64(int_bytes);
+//@arm Long4
+//@subst for (i, &b) in ... { ... } => value = vf_le_bytes_to_i64(int_bytes);
+//@subst u32::from_le_bytes( => vf_u32_from_le_bytes(
+//@arm String | ShortBinUnicode | Unicode | BinUnicode | BinUnicode8
+//@subst std::string::String::from_utf8_lossy( => vf_from_utf8_lossy(
+//@arm BinString | ShortBinString | BinBytes | ShortBinBytes | BinBytes8
+//@subst arg_bytes.to_vec() => vf_to_vec(arg_bytes)
+//@arm ByteArray8
+//@subst arg_bytes.to_vec() => vf_to_vec(arg_bytes)
+//@arm Global
+//@subst std::string::String::from_utf8_lossy( => vf_from_utf8_lossy(
+//@subst full_string.split('\n').collect() => vf_split_lines(&full_string)
+//@subst Vec<&str> => Vec<VfStr>
+//@arm Inst
+//@use POP_TO_MARK_LOOP
+//@subst std::string::String::from_utf8_lossy( => vf_from_utf8_lossy(
+//@subst full_string.split('\n').collect() => vf_split_lines(&full_string)
+//@subst Vec<&str> => Vec<VfStr>
+//@arm PersID
+//@subst std::string::String::from_utf8_lossy( => vf_from_utf8_lossy(
+//@arm Get
+//@subst if let Ok(index_str) = std::str::from_utf8(arg_bytes) { if let Ok(index) = index_str.trim().parse() { ... } } => if let Some(index) = vf_parse_usize(arg_bytes) { $1 }
+//@arm Put
+//@subst if let Ok(index_str) = std::str::from_utf8(arg_bytes) { if let Ok(index) = index_str.trim().parse() { ... } } => if let Some(index) = vf_parse_usize(arg_bytes) { $1 }
+//@arm LongBinGet
+//@subst u32::from_le_bytes( => vf_u32_from_le_bytes(
+//@arm LongBinPut
+//@subst u32::from_le_bytes( => vf_u32_from_le_bytes(
 //@endfn
 
 }
